@@ -701,7 +701,140 @@ def newAgent (s : IOState) (index : Nat) (ex : Bool) (hook : Hook) (netSpecs : L
   let a0 : Agent := { index := index, nets := nets0, opts := opts, lrs := lrs, hook := hook, actExempt := ex, label := "None" }
   { s with pop := s.pop ++ [construct al.1 s.stamp a0], next := al.2, stamp := s.stamp + 1 }
 
+/-! ### the registry as the library validates it (`MutationRegistry`, `EvolvableAlgorithm._registry_init`)
+
+  Attribute names are numbers.  A group is a `NetworkGroup` after `__post_init__`; `evolvable` is what
+  `evolvable_attributes()` lists, `attrs` the names for which `hasattr(self, ·)` holds. -/
+
+structure RGroup where
+  eval   : Nat
+  shared : Option (List Nat)
+  policy : Bool
+  multi  : Bool
+deriving DecidableEq, Repr
+
+structure ROpt where
+  name  : Nat
+  nets  : List Nat
+  lr    : Nat
+  multi : Bool
+deriving DecidableEq, Repr
+
+structure RegData where
+  groups    : List RGroup
+  opts      : List ROpt
+  hooks     : List Nat
+  hps       : Option (List Nat)
+  evolvable : List Nat
+  attrs     : List Nat
+deriving DecidableEq, Repr
+
+def RGroup.sharedL (g : RGroup) : List Nat := g.shared.getD []
+
+/-- `registry.all_registered()` -/
+def RegData.registered (r : RegData) : List Nat :=
+  r.groups.map (·.eval) ++ r.groups.flatMap (·.sharedL) ++ r.opts.map (·.name)
+
+/-- `registry.policy`: the evaluation network of the FIRST group flagged as policy -/
+def RegData.policy (r : RegData) : Option Nat := (r.groups.find? (·.policy)).map (·.eval)
+
+/-- which check of `_registry_init` raises first (all raise `AttributeError`) -/
+inductive RegError
+  | noGroups | notRegistered | noPolicy | hpMissing
+deriving DecidableEq, Repr
+
+def registryCheck (r : RegData) : Option RegError :=
+  if r.groups.isEmpty then some .noGroups
+  else if !(r.evolvable.all fun a => r.registered.contains a) then some .notRegistered
+  else if !(r.groups.any (·.policy)) then some .noPolicy
+  else if !((r.hps.getD []).all fun h => r.attrs.contains h) then some .hpMissing
+  else none
+
+/-- what the library's validation enforces — and nothing more -/
+def WellFormedRegistry (r : RegData) : Prop :=
+  r.groups ≠ [] ∧ (∀ a ∈ r.evolvable, a ∈ r.registered) ∧ (∃ g ∈ r.groups, g.policy = true) ∧
+  ∀ h ∈ r.hps.getD [], h ∈ r.attrs
+
+/-- the structural conditions the wiring theorems assume of a registry -/
+def RegData.evals (r : RegData) : List Nat := r.groups.map (·.eval)
+
+/-- exactly one group is the policy (`PolicyAt`) -/
+def RegData.OnePolicy (r : RegData) : Prop := (r.groups.filter (·.policy)).length = 1
+/-- optimizers are registered for evaluation networks (`DescOK.optsEval`) -/
+def RegData.OptsEval (r : RegData) : Prop := ∀ o ∈ r.opts, ∀ k ∈ o.nets, k ∈ r.evals
+/-- a list optimizer is registered for one network attribute (`OptShapeOK`) -/
+def RegData.OptShape (r : RegData) : Prop := ∀ o ∈ r.opts, o.multi = true → o.nets.length = 1
+/-- a network is the evaluation network of one group or shared in exactly one group, never both (`Role` is a function) -/
+def RegData.RolesFunctional (r : RegData) : Prop := (r.evals ++ r.groups.flatMap (·.sharedL)).Nodup
+/-- every optimizer's learning-rate attribute exists -/
+def RegData.LrExists (r : RegData) : Prop := ∀ o ∈ r.opts, o.lr ∈ r.attrs
+
+instance (r : RegData) : Decidable r.OnePolicy := by unfold RegData.OnePolicy; infer_instance
+instance (r : RegData) : Decidable r.OptsEval := by unfold RegData.OptsEval; infer_instance
+instance (r : RegData) : Decidable r.OptShape := by unfold RegData.OptShape; infer_instance
+instance (r : RegData) : Decidable r.RolesFunctional := by unfold RegData.RolesFunctional; infer_instance
+instance (r : RegData) : Decidable r.LrExists := by unfold RegData.LrExists; infer_instance
+
+/-- `__setattr__`: an `OptimizerWrapper` assigned under a name no optimizer is registered under is registered -/
+def RegData.setOpt (r : RegData) (name : Nat) (w : Option (List Nat × Nat × Bool)) : RegData :=
+  let r1 : RegData := match w with
+    | some (nets, lr, multi) =>
+      if (r.opts.map (·.name)).contains name then r
+      else { r with opts := r.opts ++ [({ name := name, nets := nets, lr := lr, multi := multi } : ROpt)] }
+    | none => r
+  { r1 with attrs := r1.attrs ++ [name] }
+
+def RegData.addGroup (r : RegData) (g : RGroup) : RegData := { r with groups := r.groups ++ [g] }
+def RegData.addHook (r : RegData) (h : Nat) : RegData := { r with hooks := r.hooks ++ [h] }
+
+/-- `MutationRegistry.__eq__`: groups field by field, optimizers by name and networks only — in registration order -/
+def RegData.regEq (r s : RegData) : Bool :=
+  r.groups == s.groups && (r.opts.map fun o => (o.name, o.nets)) == (s.opts.map fun o => (o.name, o.nets))
+
+/-! ### registry check over the line protocol -/
+
+/-- `eval:shared|N:policy` with shared = `-` (an empty list) or `a,b`, `N` = None -/
+def parseRGroup? (s : String) : Option RGroup :=
+  match s.splitOn ":" with
+  | [e, sh, p] =>
+    match parseNat? e, (if sh = "N" then some none else (parseNatList? "," sh).map some), p with
+    | some e, some sh, "1" => some { eval := e, shared := sh, policy := true, multi := false }
+    | some e, some sh, "0" => some { eval := e, shared := sh, policy := false, multi := false }
+    | _, _, _ => none
+  | _ => none
+
+/-- `name:nets:lr` -/
+def parseROpt? (s : String) : Option ROpt :=
+  match s.splitOn ":" with
+  | [n, ns, lr] =>
+    match parseNat? n, parseNatList? "," ns, parseNat? lr with
+    | some n, some ns, some lr => some { name := n, nets := ns, lr := lr, multi := false }
+    | _, _, _ => none
+  | _ => none
+
+def showRegError : Option RegError → String
+  | none => "accepted"
+  | some .noGroups => "noGroups"
+  | some .notRegistered => "notRegistered"
+  | some .noPolicy => "noPolicy"
+  | some .hpMissing => "hpMissing"
+
+/-- `regcheck <groups> ; <optimizers> ; <evolvable> ; <hps> ; <attrs>` → verdict, `registry.policy`, `all_registered()` -/
+def regCheckLine (ws : List String) : String :=
+  match splitOnTok ";" ws with
+  | [gs, os, es, hs, as] =>
+    match allSome (gs.map parseRGroup?), allSome (os.map parseROpt?), allSome (es.map parseNat?), allSome (hs.map parseNat?),
+          allSome (as.map parseNat?) with
+    | some gs, some os, some es, some hs, some as =>
+      let r : RegData := { groups := gs, opts := os, hooks := [], hps := some hs, evolvable := es, attrs := as }
+      showRegError (registryCheck r) ++ " policy=" ++ (match r.policy with | some p => toString p | none => "None") ++
+        " registered=" ++ String.intercalate "," (r.registered.map toString)
+    | _, _, _, _, _ => "bad-op"
+  | _ => "bad-op"
+
+
 def step (s : IOState) : List String → IOState × String
+  | "regcheck" :: ws => (s, regCheckLine ws)
   | ["mode", m] =>
     if m = "repaired" then ({ s with firstOnly := false }, "ok")
     else if m = "unrepaired" then ({ s with firstOnly := true }, "ok") else (s, "bad-op")
